@@ -19,11 +19,11 @@ def load():
 def run_one(entry, worker):
     d = variant.make_scratch(worker)
     try:
+        ok, msg = True, ""
         if "patch" in entry:
             ok, msg = variant.apply_patch(d, os.path.join(extract.VERIF, entry["patch"]), entry.get("reverse", False))
-        else:
-            ok, msg = True, ""
-            for ed in entry["edits"]:
+        if ok:
+            for ed in entry.get("edits", []):
                 ok, msg = variant.apply_edit(d, ed["file"], ed["old"], ed["new"])
                 if not ok:
                     break
@@ -41,7 +41,13 @@ def run_one(entry, worker):
             want = entry.get("expect", [])
             missing = [w for w in want if not any(k.startswith(w) for k in fired)]
             ok = bool(fired) and not missing
-            return {"id": entry["id"], "status": "ok" if ok else "FAILED", "fired": fired, "missing": missing}
+            stray = []
+            if "only" in entry:
+                for p in props:
+                    if p not in entry["only"]:
+                        stray += [v["key"] for v in res[p]["violations"]]
+                ok = ok and not stray
+            return {"id": entry["id"], "status": "ok" if ok else "FAILED", "fired": fired, "missing": missing + (["STRAY:" + k for k in stray])}
         else:
             return {"id": entry["id"], "status": "ok" if not fired else "FAILED", "fired": fired}
     finally:
